@@ -10,6 +10,8 @@ INVARIANT SymmetryConsistent
 INVARIANT OrbitClosure
 INVARIANT CopiesRotatedIntoPlace
 INVARIANT UniqueNames
+INVARIANT ZonesFollowSources
+INVARIANT EditsAreTemporary
 INVARIANT LookupsTruthful
 INVARIANT TimesThree
 INVARIANT BaseConstant
